@@ -306,6 +306,53 @@ pub fn run(cfg: &RunCfg) -> CheckReport {
     if !rep.has_violation() {
         super::large::run_part(cfg, &mut rep, &ALGS, &|a| if a == Algorithm::Lcs { 300 } else { usize::MAX }, check_large);
     }
+    if rep.has_violation() {
+        return rep;
+    }
+    // long texts through every constructor: ops == direct diff of the token slices
+    let pairs = super::richtext::long_pairs(&super::large::all(cfg.tier, cfg.seed), cfg.tier.pick(130, 300));
+    let ex = explore(cfg, pairs.len(), |shard, acc| {
+        let (name, old, new) = &pairs[shard];
+        let mut fp = Fp::new();
+        let mut n = 0;
+        for t in 0..6 {
+            if !cfg!(feature = "unicode") && (t == 3 || t == 4) {
+                continue;
+            }
+            for &alg in ALGS.iter() {
+                if alg == Algorithm::Lcs && old.len().max(new.len()) > 400 {
+                    continue;
+                }
+                for nl in [None, Some(false)] {
+                    let r = subject(|| check_config::<str>(t, alg, nl, old, new));
+                    let r = match r {
+                        Err(p) => Err(format!("panic: {}", p)),
+                        Ok(x) => x,
+                    };
+                    match r {
+                        Ok(x) => {
+                            fp.add(x.2);
+                            n += 1;
+                        }
+                        Err(e) => {
+                            acc.violation(|| {
+                                (
+                                    json!({"long_text": true, "old_text": old, "new_text": new}),
+                                    format!("{}: {} {} newline_terminated={:?}: {}", name, TOKENIZERS[t], alg_name(alg), nl, e),
+                                )
+                            });
+                            return;
+                        }
+                    }
+                }
+            }
+        }
+        if shard % 97 == 0 {
+            acc.sample(json!({"long_text_pair": name}));
+        }
+        acc.ok(true, n, fp.0);
+    });
+    rep.part("long-texts", json!({"pairs": pairs.len(), "note": "enumerated family: every constructor x algorithm on long texts (LCS up to 400 bytes)"}), ex);
     rep
 }
 
@@ -355,6 +402,26 @@ pub fn check_large(alg: Algorithm, inp: &super::large::LargeInput) -> Result<(bo
 }
 
 pub fn replay(case: &Value) -> Result<String, String> {
+    if case.get("long_text").is_some() {
+        let old = parse_str(case, "old_text")?;
+        let new = parse_str(case, "new_text")?;
+        for t in 0..6 {
+            if !cfg!(feature = "unicode") && (t == 3 || t == 4) {
+                continue;
+            }
+            for &alg in ALGS.iter() {
+                if alg == Algorithm::Lcs && old.len().max(new.len()) > 400 {
+                    continue;
+                }
+                for nl in [None, Some(false)] {
+                    subject(|| check_config::<str>(t, alg, nl, old, new))
+                        .map_err(|p| format!("panic: {}", p))?
+                        .map_err(|e| format!("{} {}: {}", TOKENIZERS[t], alg_name(alg), e))?;
+                }
+            }
+        }
+        return Ok("holds".into());
+    }
     if let Some(r) = super::large::resolve(case) {
         let (alg, inp) = r?;
         return check_large(alg, &inp).map(|o| format!("holds; fingerprint {:x}", o.2));
